@@ -175,6 +175,26 @@ theorem assign_partial_after_ref (dflt : ν) (d : Nat) (t : Tree Int ν (d + 1))
 
 end
 
+/-! ### in-place arithmetic through the handle of a partial point -/
+section
+variable {κ ν : Type} [LT κ] [DecidableRel (α := κ) (· < ·)] [DecidableEq κ] [StrictTotal κ]
+
+/-- `h = t.getPayloadRef(*p); h *= k` at a partial point `p` (modelled as `updateUnder` after `refAt`; `g` is
+    `x ↦ if x = dflt then x else x * k`, which is what the library's walk over non-empty elements computes):
+    every point below `p` then reads `g` of what it read before, every other point reads what it read before, the
+    tree stays well-formed — the in-place form changes the abstract map block-wise and nothing else.  Handles held
+    from earlier `getPayloadRef` calls keep denoting their points because no element is replaced (the model
+    updates leaves where they are; the correspondence check compares object identity on the implementation) -/
+theorem scale_partial_read (dflt : ν) (g : ν → ν) (hg : g dflt = dflt) (d : Nat) (t : Tree κ ν d) (h : WF d t)
+    (p : List κ) (hp : p.length ≤ d) (q : List κ) :
+    WF d (updateUnder g d (refAt dflt d t p) p) ∧
+    val dflt d (updateUnder g d (refAt dflt d t p) p) q =
+      if p <+: q then g (val dflt d t q) else val dflt d t q := by
+  refine ⟨updateUnder_wf g d _ (refAt_wf dflt d t h p) p, ?_⟩
+  rw [updateUnder_val dflt g hg d _ p q hp, refAt_val dflt d t h p]
+
+end
+
 /-! ### non-vacuity -/
 section
 private def exT : Tree Int Int 2 := [(0, [(1, (5 : Int)), (2, (0 : Int))]), (3, []), (4, [(0, (7 : Int))])]
@@ -187,6 +207,9 @@ private def exG : TreeArg Int := ⟨fun k => match k with | 1 => some ([(1, (9 :
 #guard (locate 1 exT [3]).isSome
 #guard let t' := (mstep 0 1 exT (.assignF [3] exG)).1
        getLeaf 0 2 t' [3, 1] == 9 && getLeaf 0 2 t' [3, 2] == 0 && getLeaf 0 2 t' [0, 1] == 5 && wfB 2 t'
+-- row 0 scaled in place by 3 through its handle (default 0): (0,1) reads 15, the explicit default stays, row 4 untouched
+#guard let t' := updateUnder (fun x => if x = 0 then x else x * 3) 2 (refAt (0 : Int) 2 exT [0]) [0]
+       getLeaf 0 2 t' [0, 1] == 15 && getLeaf 0 2 t' [0, 2] == 0 && getLeaf 0 2 t' [4, 0] == 7 && wfB 2 t'
 #guard legalStart ([(0, 1), (2, 1), (5, 1)] : Fib Int Int) 1 4 && coord2posFrom ([(0, 1), (2, 1), (5, 1)] : Fib Int Int) 1 4 == 2
 end
 end Ft
